@@ -617,6 +617,20 @@ def build(repo):
     U.raw(NEWLINES_LEMMAS, name='lemmas:condense-newlines', props=['C02'])
     U.raw(NUMSUF_LEMMAS, name='lemmas:number-suffixes', props=['C02', 'C17'])
     U.impl(D, 'impl Document', {
+        'newlines_to_breaks': dict(
+            props=['C01', 'C02'],
+            # only kinds change: every span stays what it was (so any tiling is kept), and a kind changes only from a
+            # Newline of two or more to a ParagraphBreak
+            ensures=['final(self).source@ == old(self).source@', 'final(self).tokens@.len() == old(self).tokens@.len()',
+                     'forall|j: int| 0 <= j < old(self).tokens@.len() ==> (#[trigger] final(self).tokens@[j]).span == old(self).tokens@[j].span',
+                     'forall|j: int| 0 <= j < old(self).tokens@.len() ==> (#[trigger] final(self).tokens@[j]).kind == old(self).tokens@[j].kind || (final(self).tokens@[j].kind is ParagraphBreak && old(self).tokens@[j].kind is Newline)'],
+            loops={1: dict(desugar='R8', invariant=[
+                'self.source@ == old(self).source@', '__i <= self.tokens@.len()', 'self.tokens@.len() == old(self).tokens@.len()',
+                'forall|j: int| __i <= j < self.tokens@.len() ==> self.tokens@[j] == old(self).tokens@[j]',
+                'forall|j: int| 0 <= j < __i ==> (#[trigger] self.tokens@[j]).span == old(self).tokens@[j].span',
+                'forall|j: int| 0 <= j < __i ==> (#[trigger] self.tokens@[j]).kind == old(self).tokens@[j].kind || (self.tokens@[j].kind is ParagraphBreak && old(self).tokens@[j].kind is Newline)',
+            ], decreases='self.tokens@.len() - __i')},
+        ),
         'condense_newlines': NEWLINES,
         'condense_spaces': SPACES,
         'condense_dotted_initialisms': DOTTED,
